@@ -67,6 +67,8 @@ func checkC06(e *Env) {
 				c, ok := in.(*ssa.Call)
 				return ok && prov.CalleeName(&c.Call) == "builtin:append" && strings.Contains(prov.Of(c.Call.Args[1]), "VerifiedSignedSubset")
 			}})
+	// the signing algorithm shared with signed exchanges: curve/hash pairing and a digest of this message only
+	curveHashTable(e)
 	e.R.Floor("FORALL", 2)
 
 	// VerifyExchange: result only after all checks
